@@ -118,4 +118,10 @@ TEXT = {
   "note": "partial below the JSON tree (Go's lexer/printer are compared with the model byte for byte on generated values, not proved) and for the transport framing (exercised over loopback TCP); trusted: Coq kernel, extraction, OCaml JSON reader, harness",
   "technique": "Coq proof (round-trip, decoder image, injectivity of the printer on id bodies; finite table check on a regenerated table) + differential correspondence on bytes, hashes and decoder verdicts + real TCP round",
  },
+ "C05": {
+  "level": "Theorems: for blocks whose kept transactions spend only outputs found identically in the confirmed registry (no last-block or same-block spends), the block an honest producer appends on an aligned tick is accepted by `verify` as an extension of a peer holding the same chain, as a competitor to the peer's own tip (there even last-block spends are accepted), and in a full re-sync; fee computation depends on the registry only through the outputs the inputs denote. The three situations in which the pinned design makes honest peers reject an honest block are exhibited as reachable witnesses (last-block spend, same-block spend, yielding output to a just-removed address) and are known findings.",
+  "ref": "DESIGN.md section 4, C05",
+  "note": "hypotheses: aligned tick, fee >= 1, tip not dated 0, the producer can replay its own block (no id clash of the fresh reward transaction); the property as stated is refuted in three known situations (findings); trusted: Coq kernel, extraction, harness, oracles",
+  "technique": "Coq proof (simulation producer => verifier for confirmed-only blocks, reachable refutation witnesses) + differential correspondence on three real peers per produced block",
+ },
 }
